@@ -1,6 +1,7 @@
 """C04 Literal values survive quote and number normalisation - static necessary conditions."""
 import r_regex
 import r_opt
+import r_tree
 
 EXPLANATION = (
     "Constant + regex-AST audit and decision-table extraction (no matching is performed, no string is rewritten): the "
@@ -11,7 +12,9 @@ EXPLANATION = (
     "output quote -> text; unnecessary escape -> char; necessary -> backslash+char) is extracted by path "
     "enumeration; numbers get the prefix 0 / -0 exactly under starts_with('.') / starts_with('-.'); string tokens "
     "keep their bracket depth, bracket strings only go through replace(); Force*/AutoPrefer* rows of "
-    "get_quote_to_use. Decides this alphabet/shape condition, not the transducer over all escape tilings (the "
+    "get_quote_to_use; (R-BRACKET) a long-bracket string that lands directly after `[` (index, table key, type indexer) would "
+    "be re-lexed as another literal: every such constructor tests the formatted child with a predicate that answers true for "
+    "every string whose quote type is Brackets, whatever its level, and pads it. Decides this alphabet/shape condition, not the transducer over all escape tilings (the "
     "property's own quantifier asks for exhaustive enumeration of strings, a dynamic technique).")
 ASSUMPTIONS = ["the `regex` crate implements the syntax as documented; leftmost-first alternation",
                "ESCAPE_ALPHABET in r_regex.py restates the escape sequences of Lua 5.1-5.4 / LuaJIT / Luau",
@@ -19,4 +22,5 @@ ASSUMPTIONS = ["the `regex` crate implements the syntax as documented; leftmost-
 
 
 def run(ctx):
-    return [r_regex.rule_regex(ctx, "C04"), r_opt.rule_quote(ctx, "C04")]
+    # a long-bracket string directly after `[` is re-lexed as a different literal: the bracket guard is a C04 clause too
+    return [r_regex.rule_regex(ctx, "C04"), r_opt.rule_quote(ctx, "C04"), r_tree.rule_bracket(ctx, "C04")]
